@@ -170,7 +170,7 @@ fn main_c11(tier: &str, seed: u64, replay: Option<&str>) -> i32 {
         let fails = |c: &c11::Case| c11::check_case(c).0.iter().any(|x| x.oracle == oracle);
         let mut budget = 300usize;
         let lines = case.lines.clone();
-        let kept = simcore::text::ddmin(lines, &mut budget, &mut |ls: &[simcore::gen::GLine]| {
+        let kept = simcore::gen::minimise_lines(lines, &mut budget, &mut |ls: &[simcore::gen::GLine]| {
             let mut c = case.clone();
             c.lines = ls.to_vec();
             fails(&c)
